@@ -66,6 +66,12 @@ type Engine struct {
 	funcLemmas map[string][]string
 	onStore    func(st *State, key, ref string)
 	onBaseRefArray func(arr string)
+	onBaseSliceRefArray func(arr string)
+	onPredStore func(st *State, key, predTarget string)
+	// noAssume: obligations (by name) whose clause is NOT assumed after its program point.  Used for the
+	// second pass of a property check: a clause of ANOTHER property that failed must not mask this property's
+	// obligations downstream (everything after a false assumption would hold vacuously).
+	noAssume map[string]bool
 	funcFacts  map[string][]string // per function: facts about the entry heap, added to every obligation of that function
 }
 
@@ -218,6 +224,9 @@ func (e *Engine) baseHeap(key string, sh *Shape) []string {
 			name = smtSym("H." + key)
 		}
 		out[i] = e.declConst(name, "(Array Int "+s+")")
+		if isSl := e.leafSliceRefs(sh); len(isSl) == len(sorts) && isSl[i] && s == "(Array Int Int)" && e.onBaseSliceRefArray != nil {
+			e.onBaseSliceRefArray(out[i])
+		}
 		if len(isRef) == len(sorts) && isRef[i] && e.onBaseRefArray != nil {
 			e.onBaseRefArray(out[i])
 		}
@@ -257,7 +266,7 @@ func (e *Engine) heapWrite(st *State, key string, sh *Shape, ref string, v *Valu
 }
 
 func (e *Engine) logStore(st *State, key, ref string) {
-	if e.onStore != nil && ref != "*" && ref != "~fresh" {
+	if e.onStore != nil && ref != "*" && ref != "~fresh" && !strings.HasPrefix(ref, "?") {
 		e.onStore(st, key, ref)
 	}
 	m := st.storeLog[key]
@@ -277,6 +286,30 @@ func (e *Engine) heapHavocAll(st *State, key string, sh *Shape) {
 	}
 	st.heap[key] = n
 	e.logStore(st, key, "*")
+}
+
+// heapHavocWhere makes the component unknown for the objects satisfying pred (a term over the
+// reference, evaluated by the caller in the pre-state) and keeps it for all other objects.
+func (e *Engine) heapHavocWhere(st *State, key string, sh *Shape, pred func(ref string) string) {
+	old := e.heapLeaves(st, key, sh)
+	sorts := e.leafSorts(sh)
+	n := make([]string, len(sorts))
+	e.nfresh++
+	r := smtSym(fmt.Sprintf("r!b%d", e.nfresh))
+	p := pred(r)
+	for i, s := range sorts {
+		n[i] = e.fresh("H."+key, "(Array Int "+s+")")
+		st.assume("(forall ((" + r + " Int)) (! (=> (not " + p + ") (= (select " + n[i] + " " + r + ") (select " + old[i] + " " + r + "))) :pattern ((select " + n[i] + " " + r + "))))")
+	}
+	st.heap[key] = n
+	// logged as a predicate target ("?" + the predicate over the placeholder %R%): a loop whose body
+	// contains this havoc keeps, at its head, the objects outside the predicate when the predicate is
+	// loop-invariant (see havocDiff), and falls back to "everything unknown" otherwise
+	pt := "?" + pred("%R%")
+	if e.onPredStore != nil {
+		e.onPredStore(st, key, pt)
+	}
+	e.logStore(st, key, pt)
 }
 
 // heapHavocAt replaces the value at one reference by a fresh value.
